@@ -113,5 +113,13 @@ CLAIMS['C12'] = dict(
          'Pulse_Container.add; unbounded in objects and segments. The count formula over all objects follows by the documented fold lemma.',
     note='coordinate keys abstracted; C13 segmentation contract assumed; floats as reals (the tolerance comparison uses the same sqrt term as the code)',
     design_ref='DESIGN.md §5 C12')
+CLAIMS['C20'] = dict(
+    text='Clause claimed: the parse/build stage. Proof over abstract option strings: the readers of -w, -a, --helix, --excitation-pulse, '
+         '--attach-load, --medium, --taper-wire, --rlc-load and --trap-load, executed for every field layout (arity, lexical kind of every '
+         'field) and with callees raising whatever their contracts allow, either complete silently or return 23 after exactly one printed '
+         'line; no exception escapes; well-formed values reach the constructors in the documented positions. The numeric stage and the '
+         'remaining readers are exercised by the native fuzz only; 7 recorded findings (C20-*).',
+    note='clause-only claim; argparse axioms; constructor raises clauses as summarised',
+    design_ref='DESIGN.md §5 C20')
 for _p in CLAIMS:
     NOT_APPLICABLE.pop(_p, None)
